@@ -84,6 +84,8 @@ class Ctx:
             "faults_fired": dict(self.faults_fired), "known": dict(self.known),
             "discarded": dict(self.discarded), "samples": self.samples[:2],
             "shard_digest": hashlib.sha256(json.dumps(self.trace).encode()).hexdigest()[:20],
+            # the same without the event traces: worlds generated and verdicts reached
+            "verdict_digest": hashlib.sha256(json.dumps([[t[0], t[2]] for t in self.trace]).encode()).hexdigest()[:20],
         }
 
 
@@ -401,15 +403,24 @@ def run_check(prop_id, tier, seed=None, workers=None, shards=None, examples=None
     finally:
         pool.shutdown(wait=True, cancel_futures=True)
 
-    # 3. determinism slice
+    # 3. determinism slice: the same shards once more in other interpreters under the other hash seed
     det_ok = True
+    det_note = None
     for s, r2 in det_pairs.items():
         r1 = results.get(s)
         if r1 is None:
             continue
-        if r1["shard_digest"] != r2["shard_digest"] or r1["examples"] != r2["examples"]:
+        if r1["verdict_digest"] != r2["verdict_digest"] or r1["examples"] != r2["examples"]:
             det_ok = False
-            harness_errors.append(f"nondeterminism: shard {s} digests {r1['shard_digest']} vs {r2['shard_digest']}")
+            harness_errors.append(f"nondeterminism: shard {s} worlds/verdicts differ between two runs "
+                                  f"({r1['verdict_digest']} vs {r2['verdict_digest']})")
+        elif r1["shard_digest"] != r2["shard_digest"]:
+            # same worlds, same verdicts, different event logs: the code under test makes choices the simulator does
+            # not own (e.g. names of temporary files).  Worth knowing, not a reason to distrust the verdicts.
+            det_note = (f"event traces of shard {s} differ between two runs although worlds and verdicts are identical: "
+                        f"the code under test uses a source of nondeterminism outside the simulator's seams")
+    if det_note:
+        print(f"[{prop_id}] NOTE: {det_note}", flush=True)
 
     # 4. violations found by the search: write replay, confirm in a fresh interpreter
     for s in sorted(results):
